@@ -8,7 +8,7 @@ import time
 from vlib import (Inconclusive, NCPU, log, run, run_tlc, stage_spec, validate_traces, write_mc)
 
 H_INV = ["H_WellFormed"]
-M_INV = ["M_Values", "M_Heads", "M_Nidx", "M_ClockId", "M_Iterator"]
+M_INV = ["M_Values", "M_Heads", "M_Nidx", "M_ClockId", "M_Iterator", "M_ToString"]
 M_PROP = ["M_Append", "M_AppendWriteFault", "M_Join", "M_SetIdentity", "M_Tamper", "M_Fork", "M_Load"]
 
 # Layer-P operators of each property: (model invariants, model action properties,
